@@ -116,7 +116,7 @@ def monotonic_table(check: Check, rule: str = "M1") -> None:
         fn = c.lookup("is_monotonic")
         if fn is None:
             raise AnalysisError("anchor vanished: Term.is_monotonic")
-        rets = [s.value for s in ast.walk(fn.node) if isinstance(s, ast.Return)]
+        rets = [s.value for s in ast.walk(fn.analysis_node) if isinstance(s, ast.Return)]
         val = rets[0].value if len(rets) == 1 and isinstance(rets[0], ast.Constant) else None
         ts = c.lookup("tsukamoto")
         overrides = ts is not None and ts.cls is not base
@@ -136,5 +136,5 @@ def monotonic_table(check: Check, rule: str = "M1") -> None:
                       c.loc())
     # the default refuses
     fn = base.lookup("tsukamoto")
-    raises = [s for s in ast.walk(fn.node) if isinstance(s, ast.Raise)]
+    raises = [s for s in ast.walk(fn.analysis_node) if isinstance(s, ast.Raise)]
     check.require(bool(raises), rule, "Term.tsukamoto/refuses", "non-monotonic terms refuse the Tsukamoto operation", loc(fn))
